@@ -56,7 +56,7 @@ MCNext ==
     \/ /\ Created(G)
        /\ \/ \E c \in Clients, kind \in Kinds, ts \in TsSet, rank \in Ranks :
                /\ NEv < MaxEvents /\ NCommits < MaxCommits
-               /\ DoCommit(c, G, kind, ArgOf(kind), [name |-> NextName, ts |-> ts, rank |-> rank, now |-> 1])
+               /\ DoCommit(c, G, kind, ArgOf(kind), [name |-> NextName, ts |-> ts, rank |-> rank, now |-> 1], <<>>)
                /\ Track
           \/ \E c \in Clients :
                /\ Immediate /\ cl[c][G].pend # NoE
@@ -75,7 +75,7 @@ MCNext ==
 MCSpec == MCInit /\ [][MCNext]_mcvars
 
 \* hide pure observation variables from the state identity
-MCView == <<ginfo, ev, cl, proc, msgs, snapq, hyd, withdrawn, held, hist.mergedNoSnap>>
+MCView == <<ginfo, ev, cl, proc, msgs, snapq, hyd, withdrawn, wl, welc, pwelc, held, hist.mergedNoSnap>>
 
 MC_C01 == Quiescent => C01_ExcusedQuiet
 MC_C01_Plain == Quiescent => C01_Plain
